@@ -240,8 +240,32 @@ def judge_pr(L, seed):
     return None
 
 
+def judge_cap(L, seed):
+    """beyond the P cap (degree 23) the selection is still a fixed function of the maximum degree: the same call gives the
+    same vector every time, N part first with L+1 entries"""
+    from chmpy.shape.shape_descriptors import make_invariants, make_N_invariants
+    nrng = np.random.default_rng(seed)
+    c = nrng.normal(size=(L + 1) ** 2) + 1j * nrng.normal(size=(L + 1) ** 2)
+    outs = [np.asarray(make_invariants(L, c)) for _ in range(3)]
+    if len({o.shape for o in outs}) != 1:
+        return f"make_invariants({L}, c) returns vectors of different length on repeated calls: {[o.shape[0] for o in outs]}"
+    if not all(np.array_equal(outs[0], o, equal_nan=True) for o in outs[1:]):
+        return f"make_invariants({L}, c) returns different values on repeated calls"
+    if not np.all(np.isfinite(outs[0])):
+        return f"make_invariants({L}, c) contains non-finite values"
+    if not np.array_equal(outs[0][:L + 1], make_N_invariants(c)):
+        return f"make_invariants({L}, c) does not start with the {L + 1} N invariants"
+    return None
+
+
 def search(ctx, budget):
     drift.report(ctx, ["shape/_invariants"])
+    for L in (23, 24, 30):
+        seed = ctx.rng.randrange(1 << 30)
+        ctx.case({"L": L, "seed": seed, "fn": "make_invariants-cap"})
+        r = judge_cap(L, seed)
+        if r:
+            ctx.fail(f"C08:cap:L={L}", r, {"L": L, "seed": seed, "fn": "make_invariants-cap"})
     for L in (2, 3, 5):
         seed = ctx.rng.randrange(1 << 30)
         ctx.case({"L": L, "seed": seed, "fn": "p_invariants_r"})
@@ -273,4 +297,6 @@ def replay(ctx, obj):
     i = obj["input"]
     if i.get("fn") == "p_invariants_r":
         return judge_pr(i["L"], i["seed"])
+    if i.get("fn") == "make_invariants-cap":
+        return judge_cap(i["L"], i["seed"])
     return judge(i["L"], i["seed"], i["kind"], i["real"])
